@@ -304,6 +304,13 @@ func combinedCase(t *rapid.T, ad *adapter) {
 		b, qcls = big.NewInt(0), "P=identity"
 	case 3:
 		b, qcls = big.NewInt(int64(rapid.IntRange(2, 200).Draw(t, "qsmall"))), "P=small·G"
+	case 4:
+		// d/2^j · G: doubling the accumulator can land exactly on a pre-computed multiple of G
+		d := int64(2*rapid.IntRange(-8, 7).Draw(t, "qodd") + 1)
+		j := rapid.IntRange(1, 6).Draw(t, "qshift")
+		b = new(big.Int).ModInverse(new(big.Int).Lsh(big.NewInt(1), uint(j)), ad.r)
+		b.Mul(b, big.NewInt(d)).Mod(b, ad.r)
+		qcls = "P=(odd/2^j)·G"
 	}
 	m, mcls := drawScalar(t, ad, "m")
 	var n *big.Int
@@ -388,5 +395,138 @@ func runAdapter(t *testing.T, ad *adapter, nq, nt int) {
 		t.Run(ad.name+"-combined", func(t *testing.T) {
 			vlib.Check(t, vlib.N(nq, nt), func(t *rapid.T) { combinedCase(t, ad) })
 		})
+	}
+	t.Run(ad.name+"-sweep", func(t *testing.T) { sweep(t, ad, vlib.N(24, 400)) })
+}
+
+// sweep enumerates the scalars next to the boundaries the property names
+// (0, the group order and its multiples that fit, the maximum of the admitted
+// width) for the generator and one other point, and a small grid of
+// (m, n, Q) for the double-scalar multiplication with Q a small or "fractional"
+// multiple of G (accumulator equal to a table entry). Plain enumeration,
+// split over shards.
+func sweep(t *testing.T, ad *adapter, span int) {
+	sub := "sweep/" + ad.name
+	one := big.NewInt(1)
+	max := new(big.Int).Sub(new(big.Int).Lsh(one, uint(8*ad.sbytes)), one)
+	var ks []*big.Int
+	seen := map[string]bool{}
+	addK := func(k *big.Int) {
+		if k.Sign() < 0 || k.Cmp(max) > 0 || seen[k.String()] {
+			return
+		}
+		seen[k.String()] = true
+		ks = append(ks, k)
+	}
+	for c := int64(0); c <= 3; c++ {
+		base := new(big.Int).Mul(ad.r, big.NewInt(c))
+		for d := int64(-int64(span)); d <= int64(span); d++ {
+			addK(new(big.Int).Add(base, big.NewInt(d)))
+		}
+	}
+	for d := int64(0); d <= int64(span); d++ {
+		addK(new(big.Int).Sub(max, big.NewInt(d)))
+	}
+	factor := big.NewInt(1)
+	if ad.mulFactor != nil {
+		factor = ad.mulFactor
+	}
+	other := new(big.Int).Rsh(ad.r, 3) // some other point of the group
+	other.Add(other, big.NewInt(int64(vlib.Seed)))
+	pts := []*big.Int{big.NewInt(1), other, big.NewInt(0)}
+	n := 0
+	for i, k := range ks {
+		if i%vlib.NShards != vlib.Shard {
+			continue
+		}
+		for pi, b := range pts {
+			if pi == 2 && i%8 != 0 {
+				continue
+			}
+			if ad.mul != nil {
+				vlib.Eval(sub)
+				n++
+				e := new(big.Int).Mul(k, b)
+				e.Mul(e, factor)
+				if got, want := ad.enc(ad.mul(k, ad.mk(b))), ad.want(e); got != want {
+					key := fmt.Sprintf("C13/%s.ScalarMult/boundary-scalar", ad.name)
+					if !vlib.ReportDirect(t, key, fmt.Sprintf("k=%s Q=%s·G: got %s want %s", k.Text(16), b.Text(16), got, want),
+						map[string]interface{}{"k": k.Text(16), "b": b.Text(16)}) {
+						return
+					}
+				}
+				vlib.NonTrivialH(sub, "boundary-scalar", vlib.Hash64([]byte("mul"), k.Bytes(), b.Bytes()))
+			}
+		}
+		if ad.mulgen != nil {
+			vlib.Eval(sub)
+			n++
+			if got, want := ad.enc(ad.mulgen(k)), ad.want(k); got != want {
+				key := fmt.Sprintf("C13/%s.ScalarBaseMult/boundary-scalar", ad.name)
+				if !vlib.ReportDirect(t, key, fmt.Sprintf("k=%s: got %s want %s", k.Text(16), got, want), map[string]interface{}{"k": k.Text(16)}) {
+					return
+				}
+			}
+			vlib.NonTrivialH(sub, "boundary-scalar", vlib.Hash64([]byte("mulgen"), k.Bytes()))
+		}
+	}
+	if vlib.Shard == 0 {
+		vlib.Exhaustive("C13 "+ad.name+": scalars within ±"+fmt.Sprint(span)+" of 0, r, 2r, 3r and the top of the admitted width, on G and one other point", int64(len(ks)), "all shards together; variable- and fixed-base multiplication")
+	}
+	if ad.combined == nil {
+		return
+	}
+	// double-scalar grid
+	inv2 := new(big.Int).ModInverse(big.NewInt(2), ad.r)
+	var qs []*big.Int
+	for _, d := range []int64{1, -1, 2, 3, -3, 5, 7, 9, 15, 16, 17, 31, 33} {
+		qs = append(qs, new(big.Int).Mod(big.NewInt(d), ad.r))
+	}
+	for _, d := range []int64{1, -1, 3, -3, 5, 7} { // d/2, d/4, d/8, d/16: doubling the accumulator lands on a table entry
+		f := new(big.Int).Set(inv2)
+		for j := 0; j < 4; j++ {
+			q := new(big.Int).Mul(big.NewInt(d), f)
+			qs = append(qs, q.Mod(q, ad.r))
+			f.Mul(f, inv2).Mod(f, ad.r)
+		}
+	}
+	qs = append(qs, big.NewInt(0))
+	g := 12
+	if vlib.Thorough() {
+		g = 40
+	}
+	idx := 0
+	for _, b := range qs {
+		Q := ad.mk(b)
+		for m := 0; m <= g; m++ {
+			for nn := 0; nn <= g; nn++ {
+				idx++
+				if idx%vlib.NShards != vlib.Shard {
+					continue
+				}
+				vlib.Eval(sub + "/combined-grid")
+				mm, nb := big.NewInt(int64(m)), big.NewInt(int64(nn))
+				e := new(big.Int).Mul(nb, b)
+				e.Add(e, mm)
+				got, want := ad.enc(ad.combined(mm, nb, Q)), ad.want(e)
+				if got != want {
+					class := "mismatch"
+					if ad.combinedKey != nil {
+						class = ad.combinedKey(mm, nb, b, got)
+					}
+					key := fmt.Sprintf("C13/%s.CombinedMult/%s", ad.name, class)
+					if !vlib.ReportDirect(t, key, fmt.Sprintf("m=%d n=%d Q=%s·G: got %s want %s", m, nn, b.Text(16), got, want),
+						map[string]interface{}{"m": m, "n": nn, "b": b.Text(16)}) {
+						return
+					}
+					vlib.Class(sub+"/combined-grid", "known-finding:"+class)
+					continue
+				}
+				vlib.NonTrivialH(sub+"/combined-grid", "grid", vlib.Hash64([]byte(ad.name), b.Bytes(), []byte{byte(m), byte(nn)}))
+			}
+		}
+	}
+	if vlib.Shard == 0 {
+		vlib.Exhaustive(fmt.Sprintf("C13 %s: CombinedMult(m,n,Q) for 0 ≤ m,n ≤ %d and %d structured Q (small and dyadic-fraction multiples of G, identity)", ad.name, g, len(qs)), int64(len(qs)*(g+1)*(g+1)), "all shards together")
 	}
 }
